@@ -92,6 +92,7 @@ class Backend(object):
         self.call_faults = {}      # backend method name -> error name (raised once, at the next call of that method)
         self.ntransfers = 0
         self.context_opened = 0
+        self.enforce_claim = True  # transfers on an interface that this handle has not claimed fail, as with libusb
 
     def log(self, name, *args):
         self.calls.append((len(self.calls), name) + args)
@@ -189,6 +190,8 @@ class USBDevice(object):
         BACKEND.log("open", self.serial)
         h = USBDeviceHandle(self)
         self.handles.append(h)
+        if self.link is not None and hasattr(self.link, "on_open"):
+            self.link.on_open()
         return h
 
 
@@ -231,12 +234,18 @@ class USBDeviceHandle(object):
         self.closed = True
         self._call_fault("close")
 
-    def _transfer_fault(self):
+    def _transfer_fault(self, read_len=None):
         k = BACKEND.ntransfers
         BACKEND.ntransfers += 1
         name = BACKEND.faults.get(k)
+        if name == "timeout-partial" and read_len is not None:
+            # a bulk read that timed out after part of the data had arrived: python-libusb1 hands that part over in the exception
+            part = bytes(self.device.link.read_partial(read_len)) if hasattr(self.device.link, "read_partial") else b""
+            raise USBErrorTimeout(received=part, transferred=len(part))
         if name:
-            raise ERRORS[name]()
+            raise ERRORS["timeout" if name == "timeout-partial" else name]()
+        if not self.claimed and BACKEND.enforce_claim:
+            raise USBErrorIO()         # libusb refuses transfers on an interface the handle has not claimed
 
     def bulkWrite(self, endpoint, data, timeout=0):
         BACKEND.log("bulkWrite", endpoint, len(data), timeout, bool(self.claimed), self.closed)
@@ -251,7 +260,7 @@ class USBDeviceHandle(object):
         BACKEND.log("bulkRead", endpoint, length, timeout, bool(self.claimed), self.closed)
         if self.closed:
             raise USBErrorNoDevice()
-        self._transfer_fault()
+        self._transfer_fault(read_len=length)
         if not isinstance(timeout, int):
             raise TypeError("timeout must be an int (milliseconds)")
         return bytearray(self.device.link.read(endpoint, length, timeout))
